@@ -7,6 +7,10 @@ VERIF = os.path.dirname(os.path.dirname(os.path.abspath(__file__)))
 BUILD = os.path.join(VERIF, "build")
 COQ = os.path.join(VERIF, "coq")
 REPO = "/repo"
+# development aid only (never set by the registered commands, which always check /repo itself): run the checks against a
+# scratch worktree of /repo, so that seeded changes can be tried while a long sweep is using /repo
+if os.environ.get("VERIF_REPO"):
+    REPO = os.environ["VERIF_REPO"]
 NCPU = 16
 
 GOENV = dict(os.environ, GOFLAGS="-mod=mod", GOPROXY="off", GOSUMDB="off", GOTOOLCHAIN="local",
@@ -61,6 +65,24 @@ def harness_log():
     return _state["harness_log"]
 
 
+def modflags():
+    """-modfile for the harness builds when the checks run against a scratch worktree (VERIF_REPO)."""
+    if REPO == "/repo":
+        return []
+    os.makedirs(BUILD, exist_ok=True)
+    alt = os.path.join(BUILD, "alt-go.mod")
+    with open(os.path.join(VERIF, "harness", "go.mod")) as f:
+        mod = f.read().replace("=> /repo", "=> " + REPO)
+    with open(alt, "w") as f:
+        f.write(mod)
+    try:
+        with open(os.path.join(REPO, "go.sum")) as f, open(os.path.join(BUILD, "alt-go.sum"), "w") as g:
+            g.write(f.read())
+    except OSError:
+        pass
+    return ["-modfile=" + alt]
+
+
 def build_harness():
     hdir = os.path.join(VERIF, "harness")
     try:
@@ -70,7 +92,7 @@ def build_harness():
             f.write(data)
     except OSError:
         pass
-    rc, out = sh(["go", "build", "-tags", "verif", "-o", os.path.join(BUILD, "harness"), "."],
+    rc, out = sh(["go", "build"] + modflags() + ["-tags", "verif", "-o", os.path.join(BUILD, "harness"), "."],
                  cwd=hdir, env=GOENV, timeout=900)
     _state["harness_ok"] = rc == 0
     _state["harness_log"] = out
@@ -588,7 +610,7 @@ def build_autogen_harness(fams, name="autogen-harness"):
             sh(["cp", os.path.join(hdir, f), src])
     autogen_gen.write_go(fams, os.path.join(src, "types_gen.go"))
     target = os.path.join(BUILD, name)
-    rc, out = sh(["go", "build", "-tags", "verif autogen", "-o", target, "."], cwd=src, env=GOENV, timeout=1800)
+    rc, out = sh(["go", "build"] + modflags() + ["-tags", "verif autogen", "-o", target, "."], cwd=src, env=GOENV, timeout=1800)
     if rc != 0:
         return target, "the autogen harness does not build: " + out
     return target, ""
@@ -611,7 +633,7 @@ def build_race_harness():
     """The ordinary harness built with the race detector (cgo is needed for -race)."""
     target = os.path.join(BUILD, "harness-race")
     hdir = os.path.join(VERIF, "harness")
-    rc, out = sh(["go", "build", "-race", "-tags", "verif", "-o", target, "."], cwd=hdir, env=dict(GOENV, CGO_ENABLED="1"), timeout=1800)
+    rc, out = sh(["go", "build"] + modflags() + ["-race", "-tags", "verif", "-o", target, "."], cwd=hdir, env=dict(GOENV, CGO_ENABLED="1"), timeout=1800)
     if rc != 0:
         return target, "the race-detector build of the harness fails: " + out
     return target, ""
